@@ -284,6 +284,7 @@ func Gen(rng *rand.Rand, p Profile) (*Input, []string) {
 		in.Shards = []int{1, 3, 8}[rng.Intn(3)]
 	}
 	in.StrictHost = rng.Intn(5) == 0
+	in.OldExits = rng.Intn(3) == 0
 	if rng.Intn(4) == 0 {
 		in.SortBy = []string{"name", "ip", "random"}[rng.Intn(3)]
 	}
